@@ -1,6 +1,6 @@
 ---------------------------- MODULE Trace_ReadOnly ----------------------------
 (* C42, judging the observations recorded by harness/cmd/c42 (one line per mode x representative):
-     {"ev":"x","id":n,"mode":m,"kind":k,"rep":..,"out":ok|rejected|error|panic,"changed":bool,
+     {"ev":"x","id":n,"mode":m,"kind":k,"tab":table feature ("any" for kinds that name their own tables),"rep":..,"out":ok|rejected|error|panic,"changed":bool,
       "rw_out":..,"rw_changed":bool,"same":bool, ...}
    with the rule of ReadOnlyModes (Expect / Judge).  The class of the kind comes from the
    specification's table, never from the trace.  Every line is consumed; a disagreement prints
@@ -13,11 +13,11 @@ VARIABLES l
 tvars == <<l>>
 
 \* the state variables of ReadOnlyModes are not used here (only its constant-level rule is)
-TInit == l = 1 /\ mode = "none" /\ db = 0 /\ act = "init" /\ ret = "none"
+TInit == l = 1 /\ mode = "none" /\ db = 0 /\ act = "init" /\ ret = "none" /\ tab = "any"
 
 JudgeLine(e) ==
-  IF e.kind \notin Kinds \/ e.mode \notin Modes
-  THEN PrintT("MM " \o ToJson([l |-> l, id |-> e.id, what |-> "unknown kind or mode"]))
+  IF e.kind \notin Kinds \/ e.mode \notin Modes \/ e.tab \notin TabsOf(e.kind)
+  THEN PrintT("MM " \o ToJson([l |-> l, id |-> e.id, what |-> "unknown kind, mode or table feature"]))
   ELSE LET v == Judge(e.mode, e.kind, e) IN
        CASE v = "agree" -> TRUE
          [] v = "inconclusive" -> PrintT("INC " \o ToJson([l |-> l, id |-> e.id]))
